@@ -376,6 +376,24 @@ def oracle_template(o):
             text += lead + '#' + gap + kw + mid + name + trail + eol
             expected += form + (eol or '\n')
             strict_expected += form + (eol or '\n')
+        elif ls[0] == 'CT':
+            # '#cmakedefine NAME tok ...': tokens that are keys are replaced by str(value), the others kept
+            _, lead, gap, mid, name, toks, trail, eol = ls
+            if fmt == 'meson' or not blank(mid) or (lead and not blank(lead)) or (gap and not blank(gap)) or (trail and not blank(trail)): return [], 1
+            if not name or any(c.isspace() for c in name) or 'cmakedefine01' in name or '@' in name or '$' in name: return [], 1
+            vals = []
+            for sep, tok in toks:
+                if not blank(sep) or not tok or any(c.isspace() for c in tok) or 'cmakedefine01' in tok: return [], 1
+                val = py_str(data[tok][0]) if tok in data else tok
+                if '@' in val or '$' in val: return [], 1           # the finished line is scanned once: keep to inert text
+                vals.append(val)
+            if name in data and data[name][0]:
+                form = ('#define %s %s' % (name, ' '.join(vals))).strip()
+            else:
+                form = '/* #undef %s */' % name
+            text += lead + '#' + gap + 'cmakedefine' + mid + name + ''.join(sep + tok for sep, tok in toks) + trail + eol
+            expected += form + (eol or '\n')
+            strict_expected += form + (eol or '\n')
         else:
             return [], 1
     cd = mk_conf(data)
@@ -440,6 +458,8 @@ def oracle_header(o):
     sorted order, each in the documented form."""
     data = parse_data(o['data'])
     fmt, macro = o['fmt'], o['macro']
+    if fmt != 'json' and any((not k) or any(c.isspace() for c in k) or any(ch in py_str(v[0]) for ch in '\n\r') for k, v in data.items()):
+        return None          # the line-wise reading of a C / nasm header needs keys without blanks and one-line values
     cd = mk_conf(data)
     dst = os.path.join(tmpdir(), 'ohdr')
 
@@ -452,6 +472,32 @@ def oracle_header(o):
     if isinstance(got, str):
         return [dict(base, kind='header-exception', got=got)]
     text = got[0]
+    if fmt == 'json':
+        # the file is one JSON object holding exactly the data, keys in sorted order, values of the same kind
+        try:
+            pairs = json.loads(text, object_pairs_hook=list)
+        except ValueError:
+            return [dict(base, kind='header-json-invalid', got=text)]
+        want = [[k, data[k][0]] for k in sorted(data)]
+        same = isinstance(pairs, list) and len(pairs) == len(want) and all(
+            a[0] == b[0] and type(a[1]) is type(b[1]) and a[1] == b[1] for a, b in zip(pairs, want))
+        if not same:
+            return [dict(base, kind='header-json-content', expected=want, got=pairs)]
+        if not text.isascii():
+            return [dict(base, kind='header-json-not-ascii', got=text)]
+        return []
+    # the include guard of output_format 'c': "#ifndef M / #define M" in front of the entries and "#endif" as the
+    # last line when macro_name is given, "#pragma once" and no #endif otherwise; nasm has neither
+    if fmt == 'c' and macro:
+        i0, i1 = text.find('#ifndef %s\n#define %s\n' % (macro, macro)), text.find('\n#define ', text.find('#ifndef ') + 1)
+        if i0 < 0 or not text.endswith('#endif\n') or text.count('#endif') != 1 + sum(py_str(v[0]).count('#endif') + (v[1] or '').count('#endif') + k.count('#endif') for k, v in data.items()):
+            return [dict(base, kind='header-guard', expected='#ifndef %s / #define %s ... #endif' % (macro, macro), got=text)]
+    elif fmt == 'c':
+        if '#pragma once\n' not in text or text.rstrip('\n').endswith('#endif'):
+            return [dict(base, kind='header-guard', expected='#pragma once, no #endif', got=text)]
+    elif fmt == 'nasm':
+        if text.startswith('/*') or '#pragma once' in text.split('\n\n')[0] or text.endswith('#endif\n') and not any(py_str(v[0]).endswith('#endif') for v in data.values()):
+            return [dict(base, kind='header-guard', expected='no include guard in a nasm header', got=text)]
     p = '#' if fmt == 'c' else '%'
     found = []
     lines = text.split('\n')
@@ -490,7 +536,8 @@ def run_oracle(o):
         r = oracle_define_value(o)
         return ([], 1) if r is None else (r, 0)
     if kind == 'header':
-        return oracle_header(o), 0
+        r = oracle_header(o)
+        return ([], 1) if r is None else (r, 0)
     return [], 1
 
 
